@@ -35,19 +35,11 @@ example : Cmp.fromExisting (Spec.Cmp.encode ⟨List.replicate 0x2a800 0,
 
 /-! ## terrain (`src/tera.rs`)
 
-Full statements (design §6.16):
-  `c16_tera_parse_encode` : ∀ header fields and grid coordinates `ps` (fewer than 2^32),
-      `fromExisting (encode ⟨v, 128, clip, unk, ps⟩) = some (gridPlates ps)`
-  `c16_tera_roundtrip`    : `fromExisting (writeToBuffer (gridPlates ps)) = some (gridPlates ps)`
-They are proved below **relative to two per-coordinate facts about binary32 arithmetic**
-(`Tera.ReadExact c`: `128 · (c + ½)` evaluates to the float `128c + 64`; `Tera.WriteExact c`:
-`((128c + 64) / 128 − ½) as i16 = c`), which are decidable predicates on the bit-level float model
-(`Model/F32Arith.lean`).  Everything structural (header, padding, counts, vector of positions, plate
-loop, file names) is proved for all inputs.  The float facts are checked for **all 65 536 coordinates**
-by execution on every run (model against `Spec.Tera.gridPos` in the driver's `tera_exact` cases, and the
-compiled Rust code against the same specification in `tera_parse` / `tera_rt` / `tera_write` cases); a
-kernel proof of all of them by bit-blasting exceeded the time budget (the first link,
-`i16 as f32`, is proved: `c16_tera_i16_to_f32`).  Hence `_partial`. -/
+f32 values are u32 bit patterns, i16 coordinates u16 bit patterns.  The binary32 arithmetic of the
+reader (`plate_size as f32 * (c as f32 + 0.5)`) and of the writer (`((p / 128.0) - 0.5) as i16`) is
+modelled bit-exactly (`Model/F32Arith.lean`); that it lands exactly on / comes back exactly from the
+grid value `128c + 64` is proved for **all 65 536 coordinates** by bit-blasting
+(`Proofs/TeraFloat.lean`, `bv_decide`, one rounding per lemma). -/
 
 /-- the reader returns, for every stored position in file order, the plate computed by
 `plate_size as f32 * (coord as f32 + 0.5)` and the file name `%04d.mdl` of its index — any header
@@ -56,41 +48,46 @@ theorem c16_tera_parse_structure (f : Spec.Tera.File) (h : Spec.Tera.WF f) :
     Tera.fromExisting (Spec.Tera.encode f) = some (Tera.platesFrom f.plateSize 0 f.positions) :=
   Tera.fromExisting_encode f h
 
-/-- on the 128-unit grid the returned positions are exactly the plate centres `128c + 64` -/
-theorem c16_tera_parse_encode_partial (version clip unknown : UInt32) (ps : List (UInt16 × UInt16))
-    (h : ps.length < 2 ^ 32) (hf : ∀ p ∈ ps, Tera.ReadExact p.1 ∧ Tera.ReadExact p.2) :
+/-- reader arithmetic on the grid: `128 as f32 * (c as f32 + 0.5)` is the float `128c + 64`, all `c` -/
+theorem c16_tera_read_exact (c : UInt16) : Tera.centre 128 c = Spec.Tera.gridPos c :=
+  TeraFloat.centre_grid c
+
+/-- writer arithmetic on the grid: `((128c + 64) / 128 − 0.5) as i16 = c`, all `c` -/
+theorem c16_tera_write_exact (c : UInt16) : Tera.coord (Spec.Tera.gridPos c) = c :=
+  TeraFloat.coord_grid c
+
+/-- **terrain plate positions are returned exactly as stored**: a file with plate size 128, any other
+header values and any list of fewer than 2^32 grid coordinates parses to exactly the plates at
+`(128x + 64, 128y + 64)` named `0000.mdl`, `0001.mdl`, … -/
+theorem c16_tera_parse_encode (version clip unknown : UInt32) (ps : List (UInt16 × UInt16))
+    (h : ps.length < 2 ^ 32) :
     (Tera.fromExisting (Spec.Tera.encode ⟨version, 128, clip, unknown, ps⟩)).map (·.map Tera.toSpec)
       = some (Spec.Tera.gridPlates ps) := by
   rw [c16_tera_parse_structure ⟨version, 128, clip, unknown, ps⟩ h]
-  simp only [Option.map_some, Tera.platesFrom_grid ps 0 hf, Spec.Tera.gridPlates]
+  simp only [Option.map_some, Spec.Tera.gridPlates,
+    Tera.platesFrom_grid ps 0 (fun p _ => ⟨c16_tera_read_exact p.1, c16_tera_read_exact p.2⟩)]
 
 /-- the writer stores a grid terrain in the documented layout (version 0x1000003, plate size 128,
 clip 0.0, 1.0, 32 reserved bytes, the grid coordinates) -/
-theorem c16_tera_write_layout_partial (ps : List (UInt16 × UInt16))
-    (hf : ∀ p ∈ ps, Tera.WriteExact p.1 ∧ Tera.WriteExact p.2) :
+theorem c16_tera_write_layout (ps : List (UInt16 × UInt16)) :
     Tera.writeToBuffer ((Spec.Tera.gridPlates ps).map Tera.ofSpec)
       = Spec.Tera.encode ⟨0x1000003, 128, 0, 0x3F800000, ps⟩ :=
-  Tera.write_grid ps hf
+  Tera.write_grid ps (fun p _ => ⟨c16_tera_write_exact p.1, c16_tera_write_exact p.2⟩)
 
-/-- a terrain on the 128-unit grid written by the library parses back to the same plates -/
-theorem c16_tera_roundtrip_partial (ps : List (UInt16 × UInt16)) (h : ps.length < 2 ^ 32)
-    (hr : ∀ p ∈ ps, Tera.ReadExact p.1 ∧ Tera.ReadExact p.2)
-    (hw : ∀ p ∈ ps, Tera.WriteExact p.1 ∧ Tera.WriteExact p.2) :
+/-- **a terrain on the 128-unit grid written by the library parses back to the same plates**
+(every i16 coordinate, any number of plates below 2^32) -/
+theorem c16_tera_roundtrip (ps : List (UInt16 × UInt16)) (h : ps.length < 2 ^ 32) :
     (Tera.fromExisting (Tera.writeToBuffer ((Spec.Tera.gridPlates ps).map Tera.ofSpec))).map (·.map Tera.toSpec)
       = some (Spec.Tera.gridPlates ps) := by
-  rw [c16_tera_write_layout_partial ps hw]
-  exact c16_tera_parse_encode_partial _ _ _ ps h hr
+  rw [c16_tera_write_layout ps]
+  exact c16_tera_parse_encode _ _ _ ps h
 
-/-- first link of the float chain, for all 65 536 coordinates (bit-blasting): `c as f32` is the
-exact float of the integer `c` -/
-theorem c16_tera_i16_to_f32 (c : UInt16) :
-    F32Arith.ofI16 c = if c = 0 then 0 else Spec.Tera.f32OfInt32 (Spec.Tera.sext16 c) :=
-  TeraFloat.ofI16_eq c
-
-/-- non-vacuity: the hypotheses hold e.g. for the coordinates (0, −1), (32767, −32768) -/
+/-- a concrete instance: coordinates (0, −1), (32767, −32768) -/
 example : (Tera.fromExisting (Tera.writeToBuffer ((Spec.Tera.gridPlates [(0, 0xFFFF), (0x7FFF, 0x8000)]).map Tera.ofSpec))).map
     (·.map Tera.toSpec) = some (Spec.Tera.gridPlates [(0, 0xFFFF), (0x7FFF, 0x8000)]) :=
-  c16_tera_roundtrip_partial _ (by decide) (by decide +kernel) (by decide +kernel)
+  c16_tera_roundtrip _ (by decide)
+/-- the grid value of coordinate −1 is −64.0 = 0xC2800000, of 0 is 64.0 = 0x42800000 -/
+example : Spec.Tera.gridPos 0xFFFF = 0xC2800000 ∧ Spec.Tera.gridPos 0 = 0x42800000 := by decide
 
 /-! ## layer groups without layers (`src/layer/mod.rs`) -/
 
